@@ -401,6 +401,55 @@ impl Prop for C04 {
 		Ok(())
 	}
 
+	fn enumerate(_tier: Tier, shard: usize, nshards: usize, f: &mut dyn FnMut(Case, bool) -> bool) -> Vec<&'static str> {
+		// every history of length <= 2 over a small op alphabet, from buffers of every shape
+		let inits = ["", "s:", "//h", "s://u@h:1/p?q#f", "./a:b", "/.//a", "s:a:b", "s://h", "?q", "#f", "s://", "a/b/../c", "s:/"];
+		let mut alphabet: Vec<Op> = vec![];
+		for v in [None, Some("x")] {
+			alphabet.push(Op::Set(SetOp::Scheme(v.map(|s: &str| s.to_string()))))
+		}
+		for v in [None, Some(""), Some("g:")] {
+			alphabet.push(Op::Set(SetOp::Authority(v.map(|s: &str| s.to_string()))))
+		}
+		for v in ["", "p", "/p", "a:b", "//x", ":"] {
+			alphabet.push(Op::Set(SetOp::Path(v.to_string())))
+		}
+		for v in [None, Some("r")] {
+			alphabet.push(Op::Set(SetOp::Query(v.map(|s: &str| s.to_string()))));
+			alphabet.push(Op::Set(SetOp::Fragment(v.map(|s: &str| s.to_string()))));
+		}
+		for p in [POp::Push("a".into()), POp::Push("".into()), POp::Push("a:b".into()), POp::Push("..".into()), POp::Pop, POp::Clear, POp::SymPush("..".into()), POp::Normalize] {
+			alphabet.push(Op::Path(vec![p]))
+		}
+		for a in [AOp::SetUserinfo(Some("u".into())), AOp::SetUserinfo(None), AOp::SetHost("".into()), AOp::SetHost("[::1]".into()), AOp::SetPort(Some("".into())), AOp::SetPort(None)] {
+			alphabet.push(Op::Auth(vec![a.clone(), a]))
+		}
+		alphabet.push(Op::Resolve("s:/b".into()));
+		alphabet.push(Op::Resolve("s://h/b/c?q".into()));
+		let mut seqs: Vec<Vec<Op>> = alphabet.iter().map(|o| vec![o.clone()]).collect();
+		for a in &alphabet {
+			for b in &alphabet {
+				seqs.push(vec![a.clone(), b.clone()]);
+			}
+		}
+		let mut i = 0usize;
+		for t in inits {
+			for full in [false, true] {
+				for ops in &seqs {
+					i += 1;
+					if i % nshards != shard {
+						continue;
+					}
+					let fam = if i % 2 == 0 { Fam::Uri } else { Fam::Iri };
+					if !f(Case { fam, init: Init::Parsed { full, text: t.to_string() }, ops: ops.clone() }, true) {
+						return vec![];
+					}
+				}
+			}
+		}
+		vec!["13 initial buffers x {reference, full} x every history of length <= 2 over 31 ops (setters incl. removal, one-op path handles, two-op authority handles, resolve)"]
+	}
+
 	fn floors(_tier: Tier) -> Vec<(&'static str, u64)> {
 		vec![
 			("judged", 120_000),
